@@ -189,7 +189,13 @@ func (e *tabEnv) checkTables(fns []string, siblings [][2]string) {
 			seen[k] = true
 			rr, inRef := ref[k]
 			if !inRef {
-				c.Check("R2", "reference:"+id, r.pos, false, fmt.Sprintf("attribute row (case %s, guards %q, list %q) is not in the transcribed reference table (DESIGN Appendix A.1)", r.Cases, r.Guards, r.List))
+				// an attribute the transcribed table does not know (e.g. a newly supported IE): decided by the generic
+				// rules only (namespace/nesting above, width below); listed, not alarmed.  A row that was MOVED or
+				// re-keyed shows up as a missing reference row below.
+				c.Observe("%s: attribute row (case %s, guards %q) <- %s is not in the transcribed reference table; only the generic rules were applied", id, r.Cases, r.Guards, r.Src)
+				if r.Dropped != "" {
+					c.Check("R3", "width:"+r.Const+":"+fn, r.pos, false, r.Dropped+" — the value does not reach the kernel intact")
+				}
 				continue
 			}
 			c.Check("R2", "reference:"+id, r.pos, rr.Kind == r.Kind && rr.Src == r.Src,
@@ -220,11 +226,20 @@ func (e *tabEnv) checkTables(fns []string, siblings [][2]string) {
 	// sibling agreement
 	for _, s := range siblings {
 		a, b := e.rows[s[0]], e.rows[s[1]]
+		refConsts := map[string]bool{}
+		for _, rr := range ref {
+			if rr.Fn == s[0] || rr.Fn == s[1] {
+				refConsts[rr.Const] = true
+			}
+		}
 		norm := func(rows []attrRow) map[string]string {
 			m := map[string]string{}
 			for _, r := range rows {
 				if r.Const == "PDR_UNIX_SOCKET_PATH" {
 					continue // create only: the socket the kernel sends buffered packets to
+				}
+				if !refConsts[r.Const] {
+					continue // attribute outside the transcribed content: observed above, not compared
 				}
 				cs := strings.Replace(r.Cases, "UpdateForwardingParameters", "ForwardingParameters", 1)
 				m[r.Const+"|"+r.Parent+"|"+cs+"|"+r.Guards] = r.Kind + " " + r.Src
